@@ -165,6 +165,8 @@ type extractor struct {
 	varNames  []string
 	varID     map[string]int
 	isPtr     map[string]bool
+	isAtomic  map[string]bool   // sync/atomic.Pointer[T] field: Load()/Store() are its loads/stores
+	atomLock  map[string]int    // pseudo lock that stands for the atomicity of one Load / Store
 	ptrPkg    map[string]string // ptr field -> import path of its element type's package ("" if unknown)
 
 	methods map[string]*ast.FuncDecl
@@ -298,8 +300,57 @@ func (x *extractor) pos(n ast.Node) string {
 
 func (x *extractor) loadPtr(p string) (int, stmt) {
 	l := x.newLocal("&" + p)
+	ld := ev(fmt.Sprintf("ELoad %d %d", l, x.varID[p]))
 
-	return l, ev(fmt.Sprintf("ELoad %d %d", l, x.varID[p]))
+	if x.isAtomic[p] {
+		a := x.atomLock[p]
+
+		return l, stmt{Kind: "call", A: []stmt{ev(fmt.Sprintf("ERLock %d", a)), ld, ev(fmt.Sprintf("ERUnlock %d", a))}}
+	}
+
+	return l, ld
+}
+
+// loadInto: like loadPtr, but into the given local
+func (x *extractor) loadInto(l int, p string) stmt {
+	ld := ev(fmt.Sprintf("ELoad %d %d", l, x.varID[p]))
+
+	if x.isAtomic[p] {
+		a := x.atomLock[p]
+
+		return stmt{Kind: "call", A: []stmt{ev(fmt.Sprintf("ERLock %d", a)), ld, ev(fmt.Sprintf("ERUnlock %d", a))}}
+	}
+
+	return ld
+}
+
+func (x *extractor) storePtr(p string, l int) stmt {
+	st := ev(fmt.Sprintf("EStore %d %d", x.varID[p], l))
+
+	if x.isAtomic[p] {
+		a := x.atomLock[p]
+
+		return stmt{Kind: "call", A: []stmt{ev(fmt.Sprintf("ELock %d", a)), st, ev(fmt.Sprintf("EUnlock %d", a))}}
+	}
+
+	return st
+}
+
+// ptrField: e denotes the current value of a guarded pointer field: `recv.p`, or `recv.p.Load()` for an atomic one
+func (x *extractor) ptrField(sc *scope, e ast.Expr) (string, bool) {
+	if f, ok := x.recvField(sc, e); ok && x.isPtr[f] && !x.isAtomic[f] {
+		return f, true
+	}
+
+	if call, ok := e.(*ast.CallExpr); ok && len(call.Args) == 0 {
+		if sel, ok := call.Fun.(*ast.SelectorExpr); ok && sel.Sel.Name == "Load" {
+			if f, ok := x.recvField(sc, sel.X); ok && x.isAtomic[f] {
+				return f, true
+			}
+		}
+	}
+
+	return "", false
 }
 
 // objCall: method `name` called on tracked local l.  resultUsed: the call's value is consumed by an unknown context.
@@ -338,7 +389,7 @@ func (x *extractor) args(sc *scope, args []ast.Expr) []stmt {
 			continue
 		}
 
-		if f, ok := x.recvField(sc, a); ok && x.isPtr[f] {
+		if _, ok := x.ptrField(sc, a); ok {
 			out = append(out, unsupported(x.pos(a)+": guarded pointer passed to a function that is not analysed"))
 
 			continue
@@ -380,7 +431,7 @@ func (x *extractor) inline(sc *scope, decl *ast.FuncDecl, call *ast.CallExpr) []
 			continue
 		}
 
-		if f, ok := x.recvField(sc, a); ok && x.isPtr[f] {
+		if f, ok := x.ptrField(sc, a); ok {
 			l, ld := x.loadPtr(f)
 			out = append(out, ld)
 
@@ -458,11 +509,53 @@ func (x *extractor) call(sc *scope, call *ast.CallExpr, resultUsed bool) []stmt 
 				return []stmt{unsupported(x.pos(call) + ": lock method " + name + " is not modelled")}
 			}
 
+			if x.isAtomic[f] {
+				switch {
+				case name == "Load" && len(call.Args) == 0:
+					_, ld := x.loadPtr(f)
+
+					return []stmt{ld}
+				case name == "Store" && len(call.Args) == 1:
+					if l, ok := x.trackedLocal(sc, call.Args[0]); ok {
+						return []stmt{x.storePtr(f, l)}
+					}
+
+					if src, ok := x.cloneSource(sc, call.Args[0]); ok {
+						l := x.newLocal("clone")
+						out := append(src.pre, ev(fmt.Sprintf("EClone %d %d", l, src.local)))
+
+						return append(out, x.storePtr(f, l))
+					}
+
+					return append(x.args(sc, call.Args), unsupported(x.pos(call)+": atomic pointer stored from an untracked value"))
+				default:
+					return []stmt{unsupported(x.pos(call) + ": atomic pointer method " + name + " is not modelled")}
+				}
+			}
+
 			if x.isPtr[f] {
 				l, ld := x.loadPtr(f)
 
 				return append([]stmt{ld}, x.objCall(sc, l, name, call, resultUsed)...)
 			}
+
+			// any other method call on a guarded field (sync.Map cache, counters, ...): its effect on the field is unknown
+			return append(x.args(sc, call.Args), unsupported(x.pos(call)+": method "+name+" called on guarded field "+f))
+		}
+
+		// recv.p.Load().M(...)
+		if f, ok := x.ptrField(sc, fun.X); ok {
+			l, ld := x.loadPtr(f)
+
+			return append([]stmt{ld}, x.objCall(sc, l, name, call, resultUsed)...)
+		}
+
+		// deeper: recv.f.g.M(...), recv.f[i].M(...)
+		if f, _, ok := x.guardedRoot(sc, fun.X); ok {
+			out := x.expr(sc, fun.X)
+			out = append(out, x.args(sc, call.Args)...)
+
+			return append(out, unsupported(x.pos(call)+": method "+name+" called on a value reached through guarded field "+f))
 		}
 
 		// embedded mutex: recv.Lock()
@@ -533,6 +626,10 @@ func (x *extractor) expr(sc *scope, e ast.Expr) []stmt {
 		if f, ok := x.recvField(sc, v); ok {
 			if _, isLock := x.lockID[f]; isLock {
 				return []stmt{unsupported(x.pos(v) + ": mutex used as a value")}
+			}
+
+			if x.isAtomic[f] {
+				return []stmt{unsupported(x.pos(v) + ": atomic pointer used as a value")}
 			}
 
 			if x.isPtr[f] {
@@ -633,6 +730,10 @@ func (x *extractor) assign(sc *scope, lhs, rhs ast.Expr, tok token.Token) []stmt
 			return []stmt{unsupported(x.pos(lhs) + ": assignment to a mutex")}
 		}
 
+		if x.isAtomic[f] {
+			return []stmt{unsupported(x.pos(lhs) + ": assignment to / through an atomic pointer field")}
+		}
+
 		if x.isPtr[f] {
 			if !exact {
 				l, ld := x.loadPtr(f)
@@ -682,11 +783,11 @@ func (x *extractor) assign(sc *scope, lhs, rhs ast.Expr, tok token.Token) []stmt
 
 	// --- definitions / assignments of locals
 	if id, ok := lhs.(*ast.Ident); ok && id.Obj != nil {
-		if f, ok := x.recvField(sc, rhs); ok && x.isPtr[f] {
+		if f, ok := x.ptrField(sc, rhs); ok {
 			l := x.newLocal(id.Name)
 			sc.env[id.Obj] = l
 
-			return []stmt{ev(fmt.Sprintf("ELoad %d %d", l, x.varID[f]))}
+			return []stmt{x.loadInto(l, f)}
 		}
 
 		if src, ok := x.cloneSource(sc, rhs); ok {
@@ -739,7 +840,7 @@ func (x *extractor) cloneSource(sc *scope, e ast.Expr) (cloneSrc, bool) {
 		return cloneSrc{}, false
 	}
 
-	if f, ok := x.recvField(sc, sel.X); ok && x.isPtr[f] {
+	if f, ok := x.ptrField(sc, sel.X); ok {
 		l, ld := x.loadPtr(f)
 
 		return cloneSrc{pre: []stmt{ld}, local: l}, true
@@ -1261,7 +1362,8 @@ func main() {
 	x := &extractor{
 		fset: fset, file: f, typeName: *typ,
 		lockKind: map[string]string{}, lockID: map[string]int{}, varID: map[string]int{},
-		isPtr: map[string]bool{}, ptrPkg: map[string]string{}, methods: map[string]*ast.FuncDecl{},
+		isPtr: map[string]bool{}, isAtomic: map[string]bool{}, atomLock: map[string]int{},
+		ptrPkg: map[string]string{}, methods: map[string]*ast.FuncDecl{},
 		objMethods: map[string]bool{}, objKnown: map[string]bool{},
 	}
 
@@ -1328,9 +1430,24 @@ func main() {
 			x.varID[n] = len(x.varNames)
 			x.varNames = append(x.varNames, n)
 
+			var el ast.Expr
+
 			if star, ok := fld.Type.(*ast.StarExpr); ok {
+				el = star.X
+			}
+
+			// sync/atomic.Pointer[T]
+			if ix, ok := fld.Type.(*ast.IndexExpr); ok {
+				if sel, ok := ix.X.(*ast.SelectorExpr); ok && sel.Sel.Name == "Pointer" {
+					if id, ok := sel.X.(*ast.Ident); ok && imports[id.Name] == "sync/atomic" {
+						el = ix.Index
+						x.isAtomic[n] = true
+					}
+				}
+			}
+
+			if el != nil {
 				x.isPtr[n] = true
-				el := star.X
 
 				if ix, ok := el.(*ast.IndexExpr); ok {
 					el = ix.X
@@ -1350,6 +1467,17 @@ func main() {
 					ptrElem[n] = [2]string{"", id.Name} // a type of the same package
 				}
 			}
+		}
+	}
+
+	// one pseudo lock per atomic pointer field: a Load holds it shared, a Store exclusively, for that access only
+	for _, n := range x.varNames {
+		if x.isAtomic[n] {
+			name := "atomic(" + n + ")"
+			x.atomLock[n] = len(x.lockNames)
+			x.lockID[name] = len(x.lockNames)
+			x.lockNames = append(x.lockNames, name)
+			x.lockKind[name] = "RWMutex"
 		}
 	}
 
